@@ -143,6 +143,13 @@ def stepS (st : St) (w : List String) : St × String :=
     match st.sin with
     | some _ => (st, "R ok fmt=sock,me meta=same,1 sock=same,me input=same,1 unknown=BadType noptr=ok clone=no ref=2 | C - | I ret=0 | S ok fmt=sock,me meta=same,1 sock=same,me input=same,1 unknown=BadType noptr=ok clone=no ref=2 ; -")
     | none => (st, "bad-op")
+  | ["s", "req", h, "discard"] =>
+    -- dispatch without handler on the stream input: the message is dropped, no reply context is set up, nothing is sent
+    match st.sin, parseHex h with
+    | some _, some data =>
+      if data.length > 1000 then (st, "bad-op") else
+      ({ st with sfresh := false }, "R called=0 ctx=0 id=0 acts=- | C - | I next=1 disp=0 | S called=0 ctx=0 id=0 acts=- ; -")
+    | _, _ => (st, "bad-op")
   | ["s", "req", h, a] =>
     match st.sin, parseHex h, parseActs a st.sfresh with
     | some s, some data, some acts =>
@@ -228,6 +235,11 @@ def specConReq (idlen : Nat) (nh : Nat) (data : List Byte) (acts : List Act) : S
     let frames := if ctx ∧ r.2.1 = 0 then r.2.2 ++ [ReplySpec.mark id ++ [1, argByte retv]] else r.2.2
     (s!"called=1 ctx={if ctx then 1 else 0} id=0 acts={",".intercalate r.1}", frames, if r.2.1 = 2 then some id else none)
 
+/-- harness convention: reply commands registered with a tag from 900000 on report failure (return -1) -/
+def failingTag (t : Nat) : Bool := t ≥ 900000
+/-- harness convention: reply commands with a tag in 800000..899999 register a follow-up request (tag + 1) -/
+def followTag (t : Nat) : Option Nat := if 800000 ≤ t ∧ t < 900000 then some (t + 1) else none
+
 /-- the peer answers one of our requests on the connection (id with the reply mark): `mpt_command_get(&con->_wait,
     id)`, call, release the handler (fix ea90a14); an undecodable id ends the dispatch (fix 9f09e6e).
     Spec: the reply goes to the handler that waits for exactly this id, once. -/
@@ -249,13 +261,25 @@ def conAnswer (st : St) (idlen : Nat) (data : List Byte) : St × String :=
   | .ok (v, _) =>
     match Requester.findActive (st.cwait.getD []) v with
     | some t =>
-      ({ st with cwait := st.cwait.map (Requester.deactivate · v), cpend := cpend' },
+      let cw1 := st.cwait.map (Requester.deactivate · v)
+      if 800000 ≤ t ∧ t < 900000 then
+        -- the command registers a follow-up request (mpt_connection_await from inside the handler): refused while
+        -- a request is being composed, otherwise a fresh id
+        match (if st.ccid ≠ 0 then none else Requester.reserve cw1 (Nat.min idlen 4) (t + 1)) with
+        | some (a, i) =>
+          let fresh := i ≥ 1 ∧ ReplySpec.fits i idlen ∧ !(cpend'.any fun e => e.1 == i)
+          let sfx := if fresh then s!"+id={i}" else "+id=<an id no unanswered request uses>"
+          ({ st with cwait := some a, ccid := i, cpend := cpend' ++ [(i, t + 1)] },
+           s!"R {r0} | C hr{t}({toHex payload})+id={i} | I next=1 disp=0 | S {r0} ; {sC}{sfx}")
+        | none =>
+          ({ st with cwait := cw1, cpend := cpend' },
+           s!"R {r0} | C hr{t}({toHex payload})+refused | I next=1 disp=0 | S {r0} ; {sC}+refused")
+      else
+      ({ st with cwait := cw1, cpend := cpend' },
        s!"R {r0} | C hr{t}({toHex payload}) | I next=1 disp={if t ≥ 900000 then 131072 else 0} | S {r0} ; {sC}")
     | none => ({ st with cpend := cpend' }, s!"R {r0} | C - | I next=1 disp=131072 | S {r0} ; {sC}")
   | _ => ({ st with cpend := cpend' }, s!"R {r0} | C - | I next=1 disp=131072 | S {r0} ; {sC}")
 
-/-- harness convention: reply commands registered with a tag from 900000 on report failure (return -1) -/
-def failingTag (t : Nat) : Bool := t ≥ 900000
 
 def stepC0 (st : St) (w : List String) : St × String :=
   match w with
@@ -415,6 +439,19 @@ def parseFrames (idlen : Nat) (s : String) : Option (List (List Byte)) :=
 
 def waitingOf (s : Requester.St) : Nat := (Requester.active (s.arr.getD [])).length
 
+/-- follow-up requests registered by the commands that were just called (harness convention `followTag`): the spec
+    takes the id the code's model assigned and demands that it is fresh; text = complaint if it is not -/
+def specFollow (x' : Requester.St) (sp' : ReplySpec.ReqSt) (scalls : List (Option Nat × List Byte)) : ReplySpec.ReqSt × String :=
+  scalls.foldl (fun (acc : ReplySpec.ReqSt × String) c =>
+    match c.1.bind followTag with
+    | some t' =>
+      match (Requester.active (x'.arr.getD [])).find? (·.tag == some t') with
+      | some e =>
+        if ReplySpec.freshId acc.1 e.id then ({ acc.1 with pending := acc.1.pending ++ [(e.id, t')], cur := e.id }, acc.2)
+        else ({ acc.1 with pending := acc.1.pending ++ [(e.id, t')], cur := e.id }, acc.2 ++ s!" follow-up id {e.id} is not fresh")
+      | none => acc
+    | none => acc) (sp', "")
+
 def stepX (st : St) (w : List String) : St × String :=
   match w with
   | ["xr", "open", n] =>
@@ -471,10 +508,11 @@ def stepX (st : St) (w : List String) : St × String :=
       | "answer", [f] =>
         match parseFrames x.idlen f with
         | some fs =>
-          let (x', calls) := Requester.drain (x.inq ++ fs) x []
-          let (sp', scalls) := ReplySpec.deliverAll (sp.inq ++ fs) sp []
+          let (x', calls) := Requester.drainF followTag (x.inq ++ fs) x []
+          let (sp0, scalls) := ReplySpec.deliverAll (sp.inq ++ fs) sp []
+          let (sp', complaint) := specFollow x' sp0 scalls
           ({ st with xr := some x', xs := sp' },
-           s!"R ok | C {fmtCallsX calls} | I ret=0 rounds=0 waiting={waitingOf x'} | S ok ; {fmtCallsS scalls}")
+           s!"R ok | C {fmtCallsX calls} | I ret=0 rounds=0 waiting={waitingOf x'} | S ok ; {fmtCallsS scalls}{complaint}")
         | none => (st, "bad-op")
       | "sync", [f] =>
         match parseFrames x.idlen f with
@@ -482,12 +520,13 @@ def stepX (st : St) (w : List String) : St × String :=
           -- the harness calls sync until nothing moves any more (a command that reports failure ends one call)
           let n := x.inq.length + fs.length + 2
           let (x', calls) := (List.range n).foldl (fun (acc : Requester.St × List Requester.Call) _ =>
-            let r := Requester.sync failingTag acc.1
+            let r := Requester.sync failingTag followTag acc.1
             (r.1, acc.2 ++ r.2)) ({ x with inq := x.inq ++ fs }, [])
           let (sp', scalls) := (List.range n).foldl (fun (acc : ReplySpec.ReqSt × List (Option Nat × List Byte)) _ =>
             ReplySpec.awaitReplies failingTag (acc.1.inq.length + 1) acc.1.inq acc.1 acc.2) ({ sp with inq := sp.inq ++ fs }, [])
+          let (sp', complaint) := specFollow x' sp' scalls
           ({ st with xr := some x', xs := sp' },
-           s!"R ok | C {fmtCallsX calls} | I ret=0 rounds=0 waiting={waitingOf x'} | S ok ; {fmtCallsS scalls}")
+           s!"R ok | C {fmtCallsX calls} | I ret=0 rounds=0 waiting={waitingOf x'} | S ok ; {fmtCallsS scalls}{complaint}")
         | none => (st, "bad-op")
       | "close", [] =>
         let scalls := sp.pending.map fun e => s!"h{e.2}(none)"
